@@ -249,8 +249,56 @@ fn sub_variants(input: &[u8], st: &mut Stats) -> R {
     for e in ENUMS {
         if let Some(f) = e.operand {
             let ge = g.enums.get(e.name).unwrap();
-            let vals: Vec<u32> = if ge.is_mask { vec![0, ge.all_bits] } else { ge.values.iter().map(|v| v.value).collect() };
+            let vals: Vec<u32> = if ge.is_mask {
+                let mut v = vec![0, ge.all_bits];
+                for a in &ge.bits {
+                    v.push(a.bit);
+                    for b in &ge.bits {
+                        if b.bit > a.bit {
+                            v.push(a.bit | b.bit);
+                        }
+                    }
+                }
+                v
+            } else {
+                ge.values.iter().map(|v| v.value).collect()
+            };
             for v in vals {
+                // required capabilities / extensions of EVERY operand value equal the grammar's
+                if let Some(o) = f(v) {
+                    let caps: std::collections::BTreeSet<String> = no_panic("Operand::required_capabilities", || o.required_capabilities())?.iter().map(|c| format!("{:?}", c)).collect();
+                    let exts: std::collections::BTreeSet<String> = no_panic("Operand::required_extensions", || o.required_extensions())?.iter().map(|s| s.to_string()).collect();
+                    let (mut gc, mut gx) = (std::collections::BTreeSet::new(), std::collections::BTreeSet::new());
+                    if ge.is_mask {
+                        for b in &ge.bits {
+                            if v & b.bit != 0 {
+                                gc.extend(b.caps.iter().cloned());
+                                gx.extend(b.exts.iter().cloned());
+                            }
+                        }
+                    } else if let Some(en) = ge.enumerant(v) {
+                        gc.extend(en.caps.iter().cloned());
+                        gx.extend(en.exts.iter().cloned());
+                    }
+                    if caps != gc {
+                        return Err(Fail::new("required-capabilities", format!("{}:{:#x}", e.name, v), format!("{:?} requires {:?}, the grammar lists {:?}", o, caps, gc)));
+                    }
+                    if exts != gx {
+                        return Err(Fail::new("required-extensions", format!("{}:{:#x}", e.name, v), format!("{:?} requires {:?}, the grammar lists {:?}", o, exts, gx)));
+                    }
+                    // operands without parameters report none
+                    if !PARAM_KINDS.iter().any(|(k, _)| *k == e.name) {
+                        let extra = no_panic("Operand::additional_operands", || o.additional_operands())?;
+                        let want: Vec<K> = golden_params(ge, v);
+                        if extra.iter().map(|x| x.kind).collect::<Vec<_>>().len() != want.len() {
+                            return Err(Fail::new("reflection-vs-grammar", format!("{}:{:#x}", e.name, v), format!("{:?} reports {} extra operands, the grammar lists {:?}", o, extra.len(), want)));
+                        }
+                    }
+                    st.evaluations += 1;
+                    if !gc.is_empty() || !gx.is_empty() {
+                        st.nontrivial(hash_str(&format!("caps:{}:{}", e.name, v)));
+                    }
+                }
                 if let Some(o) = f(v) {
                     ops.push(o);
                 }
